@@ -385,6 +385,13 @@ func (c *Client) beginCommand(name string, cmd command) *commandEncoder {
 	c.mutex.Lock()
 	c.cmdTag++
 	tag := fmt.Sprintf("T%v", c.cmdTag)
+	// Initialize the command before publishing it: the read goroutine may
+	// complete it as soon as it's in the pending list
+	baseCmd := cmd.base()
+	*baseCmd = Command{
+		tag:  tag,
+		done: make(chan error, 1),
+	}
 	c.pendingCmds = append(c.pendingCmds, cmd)
 	quotedUTF8 := c.caps.Has(imap.CapIMAP4rev2) || c.enabled.Has(imap.CapUTF8Accept)
 	literalMinus := c.caps.Has(imap.CapLiteralMinus)
@@ -401,11 +408,6 @@ func (c *Client) beginCommand(name string, cmd command) *commandEncoder {
 		return c.registerContReq(cmd)
 	}
 
-	baseCmd := cmd.base()
-	*baseCmd = Command{
-		tag:  tag,
-		done: make(chan error, 1),
-	}
 	enc := &commandEncoder{
 		Encoder: wireEnc,
 		client:  c,
